@@ -1,12 +1,12 @@
 package main
 
 func init() {
-	machineByID[1] = func() Machine { return &cmsMem{} }
+	machineByID[1] = func() Machine { return &withCodec{genericMachine: &cmsMem{}} }
 
-	machineByID[3] = func() Machine { return &bloomMem{} }
-	machineByID[5] = func() Machine { return &hllMem{} }
+	machineByID[3] = func() Machine { return &withCodec{genericMachine: &bloomMem{}} }
+	machineByID[5] = func() Machine { return &withCodec{genericMachine: &hllMem{}} }
 
-	machineByID[7] = func() Machine { return &cuckooMem{} }
+	machineByID[7] = func() Machine { return &withCodec{genericMachine: &cuckooMem{}} }
 	ckNontrivial := func(r *RunResult) bool {
 		for i, op := range r.Ops {
 			if op.L[0].I() == ckInsert && r.Obs[i].Kind == 2 && len(r.Obs[i].L) == 2 && r.Obs[i].L[1].U() != 0 {
@@ -17,53 +17,67 @@ func init() {
 	}
 	for _, p := range []string{"C02", "C13", "C14"} {
 		registry[p] = []Suite{
-			{Name: "cuckoo-mem", NewMachine: func() Machine { return &cuckooMem{} }, Gen: genCuckoo(p),
+			{Name: "cuckoo-mem", NewMachine: func() Machine { return &withCodec{genericMachine: &cuckooMem{}} }, Gen: genCuckoo(p),
 				Monitors: []Monitor{monitorCuckoo("mem", p)}, OpName: cuckooOpName,
 				Nontrivial: ckNontrivial, Rule: "history in which at least one insert entered the eviction branch (both candidate buckets full); distinct by SHA-1",
 				Quick: 150, Thorough: 4000},
 		}
 	}
-	registry["C02"] = append(registry["C02"], Suite{Name: "murmur", NewMachine: func() Machine { return &cuckooMem{} }, Gen: genMurmur,
+	registry["C02"] = append(registry["C02"], Suite{Name: "murmur", NewMachine: func() Machine { return &withCodec{genericMachine: &cuckooMem{}} }, Gen: genMurmur,
 		OpName: cuckooOpName, Rule: "murmur3 model vs getHash on random strings of every length 0..48", Quick: 20, Thorough: 400})
 
-	machineByID[9] = func() Machine { return &topkMem{} }
+	machineByID[9] = func() Machine { return &withCodec{genericMachine: &topkMem{}} }
 	registry["C04"] = []Suite{
-		{Name: "topk-mem", NewMachine: func() Machine { return &topkMem{} }, Gen: genC04,
+		{Name: "topk-mem", NewMachine: func() Machine { return &withCodec{genericMachine: &topkMem{}} }, Gen: genC04,
 			Monitors: []Monitor{monitorTopK("mem")}, OpName: topkOpName,
 			Nontrivial: func(r *RunResult) bool { return countOps(r, tkInsert) >= 4 },
 			Rule: ">=4 inserts (repeated keys, ties, narrow sketches) with Values() observed in between; distinct by SHA-1",
 			Quick: 300, Thorough: 5000},
 	}
 
+	for _, sg := range structGens {
+		sg := sg
+		for _, p := range []string{"C10", "C11", "C18"} {
+			registry[p] = append(registry[p], Suite{Name: sg.name, NewMachine: sg.mk, Gen: genPersist(sg, p),
+				Monitors: []Monitor{monitorPersist(sg, p)}, OpName: sg.opName,
+				Rule: "reachable state built by a random history (incl. removals / partially filled heaps), then the persistence scenario; distinct by SHA-1",
+				Quick: 40, Thorough: 1500})
+		}
+		registry["C17"] = append(registry["C17"], Suite{Name: sg.name, NewMachine: sg.mk, Gen: genC17(sg),
+			Monitors: []Monitor{monitorPersist(sg, "C17")}, OpName: sg.opName,
+			Rule: "twin or unrelated pairs, Equals both ways, paired queries, single extra operations; distinct by SHA-1",
+			Quick: 60, Thorough: 2000})
+	}
+
 	registry["C01"] = []Suite{
-		{Name: "bloom-mem", NewMachine: func() Machine { return &bloomMem{} }, Gen: genC01,
+		{Name: "bloom-mem", NewMachine: func() Machine { return &withCodec{genericMachine: &bloomMem{}} }, Gen: genC01,
 			Monitors: []Monitor{monitorBloom("mem")}, OpName: bloomOpName,
 			Nontrivial: func(r *RunResult) bool { return countOps(r, blInsert) >= 2 },
 			Rule: "history with >=2 inserts followed by lookups of inserted and fresh elements; distinct by SHA-1 of the case",
 			Quick: 300, Thorough: 5000},
 	}
 	registry["C05"] = []Suite{
-		{Name: "hll-mem", NewMachine: func() Machine { return &hllMem{} }, Gen: genC05,
+		{Name: "hll-mem", NewMachine: func() Machine { return &withCodec{genericMachine: &hllMem{}} }, Gen: genC05,
 			Monitors: []Monitor{monitorHLL("mem", "C05")}, OpName: hllOpName,
 			Nontrivial: func(r *RunResult) bool { return countOps(r, hlUpdate) >= 1 },
 			Rule: ">=1 update then counts under all four flag combinations; distinct by SHA-1",
 			Quick: 250, Thorough: 3000},
 	}
 	registry["C06"] = []Suite{
-		{Name: "hll-mem", NewMachine: func() Machine { return &hllMem{} }, Gen: genC06,
+		{Name: "hll-mem", NewMachine: func() Machine { return &withCodec{genericMachine: &hllMem{}} }, Gen: genC06,
 			Monitors: []Monitor{monitorHLL("mem", "C06")}, OpName: hllOpName,
 			Nontrivial: func(r *RunResult) bool { return countOps(r, hlMerge) >= 1 },
 			Rule: "permuted+duplicated twin sequences and a split stream merged; distinct by SHA-1",
 			Quick: 250, Thorough: 3000},
 	}
 	registry["C03"] = []Suite{
-		{Name: "cms-mem", NewMachine: func() Machine { return &cmsMem{} }, Gen: genC03,
+		{Name: "cms-mem", NewMachine: func() Machine { return &withCodec{genericMachine: &cmsMem{}} }, Gen: genC03,
 			Monitors: []Monitor{monitorCMS("mem", "C03")}, OpName: cmsOpName,
 			Nontrivial: cmsNontrivial, Rule: "history with >=2 distinct updated elements sharing at least one cell (collision) or a single-element history; distinct by SHA-1 of the case",
 			Quick: 300, Thorough: 6000},
 	}
 	registry["C12"] = []Suite{
-		{Name: "cms-mem", NewMachine: func() Machine { return &cmsMem{} }, Gen: genC12,
+		{Name: "cms-mem", NewMachine: func() Machine { return &withCodec{genericMachine: &cmsMem{}} }, Gen: genC12,
 			Monitors: []Monitor{monitorCMS("mem", "C12")}, OpName: cmsOpName,
 			Nontrivial: func(r *RunResult) bool {
 				for i, op := range r.Ops {
